@@ -144,6 +144,7 @@ func c14Pair[V univers.Version[V], VR univers.VersionRange[V]](e univers.Ecosyst
 	vv.Assume(ea == nil)
 	vb, eb := e.NewVersion(b)
 	vv.Assume(eb == nil)
+	vv.Reached()
 	vv.Assume(apkWellFormedPair(a, b))
 	vv.Assert(sign(va.Compare(vb)) == apkCompare(a, b), "C14: order differs from apk-tools' version comparison")
 }
